@@ -264,4 +264,81 @@ R.add('L15.1', l151, lambda tier: [dict(shape=list(s), maxsize=(2 if tier == 'qu
       bounds='annotation shapes: basic types, nested Serializable, enum, List/Set/Dict/Tuple of these with int/str/enum keys; '
              'container sizes 0..2 (thorough 0..3) and None')
 
+
+# ------------------------------------------------------------------ L15.2 two classes, one field name
+PAIRS = [(('list', 'int'), ('dict', 'int', 'str')), (('dict', 'int', 'ser'), ('list', 'str')), (('set', 'int'), ('list', 'int')),
+         (('list', 'int'), ('set', 'int')), (('tuple', 'int', 'str'), ('list', 'int')), (('list', 'ser'), ('leaf', 'ser')),
+         (('leaf', 'int'), ('list', 'enum')), (('dict', 'str', 'int'), ('set', 'str')), (('list', 'str'), ('tuple', 'int', 'int')),
+         (('dict', 'enum', 'int'), ('dict', 'int', 'int'))]
+
+
+def small(shape, leaf, mkset=set, mkdict=dict):
+    k = shape[0]
+    if k == 'leaf':
+        return leaf(shape[1], 0)
+    if k == 'list':
+        return [leaf(shape[1], 0), leaf(shape[1], 1)]
+    if k == 'set':
+        return mkset([leaf(shape[1], 0), leaf(shape[1], 1)])
+    if k == 'dict':
+        return mkdict([(leaf(shape[1], 0), leaf(shape[2], 0)), (leaf(shape[1], 1), leaf(shape[2], 1))])
+    return (leaf(shape[1], 0), leaf(shape[2], 1))
+
+
+def l152(first, second, maxsize=2):
+    """every message class has its own annotations: another class that uses the same field name with a different
+    annotation, and went through JSON first, does not change how this one round-trips"""
+    def leaf(kind, i):
+        if kind == 'ser':
+            o = Inner()
+            o.n = 3 + i
+            o.s = 'w%d' % i
+            return o
+        return {'int': 11 + i, 'str': 'k%d' % i, 'float': 1.5 + i, 'bool': bool(i), 'enum': [Shade.DARK, Shade.LIGHT][i]}[kind]
+    H1 = holder(tuple(first))
+    x1 = H1()
+    x1.f = small(tuple(first), leaf, SxSet, SxDict)
+    try:
+        y1 = H1.fromJson(x1.toJson())
+        z1 = H1.loads(x1.dumps())
+    except Exception as ex:
+        core.fail('the first class does not round-trip', error=type(ex).__name__ + ': ' + str(ex)[:80])
+    check(c13.deq(x1.f, y1.f) and c13.deq(x1.f, z1.f), 'the first class round-trips')
+    l151(second, maxsize)
+
+
+def replay_l152(cfg, m):
+    w = real_world()
+    s = real('mpgameserver.serializable')
+    first = tuple(cfg['first'])
+    key = repr(first)
+    if key not in w['H']:
+        ns = {'__annotations__': {'f': annotation(first, w['table']), 'tag': int}, 'f': None, 'tag': 0}
+        w['H'][key] = s.SerializableType('RH_' + '_'.join(first), (s.Serializable,), ns)
+
+    def leaf(kind, i):
+        if kind == 'ser':
+            o = w['Inner']()
+            o.n = 3 + i
+            o.s = 'w%d' % i
+            return o
+        return {'int': 11 + i, 'str': 'k%d' % i, 'float': 1.5 + i, 'bool': bool(i), 'enum': [w['Shade'].DARK, w['Shade'].LIGHT][i]}[kind]
+    x1 = w['H'][key]()
+    x1.f = small(first, leaf)
+    try:
+        w['H'][key].fromJson(x1.toJson())
+        w['H'][key].loads(x1.dumps())
+    except Exception as ex:
+        return True, 'first class %r does not round-trip: %s: %s' % (first, type(ex).__name__, ex)
+    bad, msg = replay_l151(dict(shape=cfg['second'], maxsize=cfg.get('maxsize', 2)), m)
+    return bad, 'after a class with field f: %s went through JSON: %s' % ('/'.join(first), msg)
+
+
+R.add('L15.2', l152, lambda tier: [dict(first=list(a), second=list(b), maxsize=(2 if tier == 'quick' else 3)) for a, b in PAIRS],
+      replay=replay_l152,
+      desc='two message classes that use the same field name with different annotations, one after the other through JSON: the '
+           'second round-trips exactly as it does alone',
+      expect=['fromJson(toJson(x)) reproduces x', 'the first class round-trips'],
+      bounds='10 ordered pairs of annotation shapes; first class with a fixed 2-element value, second as in L15.1')
+
 get_harness = R.get_harness
